@@ -21,6 +21,8 @@ def alphabet():
         ops.append(('register', k, (1,), 1, 'n', 'w%d' % k))       # required R0, provided P1, named
         ops.append(('subscribe', k, (2,), 0, '', 's%d' % k))
     ops.append(('unregister', 3, (2,), 0, '', None))
+    for k in (1, 2, 3):
+        ops.append(('rebuild', k))      # BaseAdapterRegistry.rebuild() of a registry others are based on
     return ops
 
 
@@ -60,7 +62,7 @@ def _run_history(flavour, ops, mask, warm):
         fresh = M.RegUniverse(flavour=flavour, nregs=NREG, bases=dict(u.reg_bases))
         fm = M.Model(NREG)
         for o in ops[:k + 1]:
-            if o[0] != 'setbases':
+            if o[0] not in ('setbases', 'rebuild'):
                 RP.apply_op(fresh, fm, o)
         exp = _obs(fresh)
         d = RP.diff(got, exp)
@@ -211,8 +213,8 @@ def _tiers(flavour):
 
 HARNESSES = [
     Harness('e_chain_adapter', make_e_chain, kind='E', impls=('py', 'c'), tiers=_tiers('adapter'), encoded=_ENC,
-            bounds='4 AdapterRegistry objects, initial chain 0->1->2->3; every history of <=2 (thorough 3) ops from 26: __bases__ of '
-                   'registry 0/1/2 := ordered subset of higher registries (acyclic), register/subscribe/unregister in any member; after '
+            bounds='4 AdapterRegistry objects, initial chain 0->1->2->3; every history of <=2 (thorough 3) ops from 29: __bases__ of '
+                   'registry 0/1/2 := ordered subset of higher registries (acyclic), register/subscribe/unregister in any member, rebuild() of a registry others are based on; after '
                    'every op lookup, lookup1, lookupAll, names, subscriptions, handlers for all arity-1 keys from every registry, and .ro',
             outside='cyclic registry __bases__; more than 4 registries; histories longer than the bound',
             oracle='a freshly constructed chain with the same current __bases__ and registrations; ro == independent C3 over the current bases'),
